@@ -137,7 +137,7 @@ def conformance(files, wd, cap_lines=0):
             raise run.ToolError(f"conformance run of CF_{name} failed:\n" + out[-2500:])
         ls = open(pth).read().splitlines()
         return name, [(ln, evn, ls[ln - 1][:300]) for (ln, evn) in drifts]
-    with ThreadPoolExecutor(max_workers=12) as ex:
+    with ThreadPoolExecutor(max_workers=8) as ex:
         for name, dr in ex.map(one, tasks):
             res[name]["drift"] += dr
     return res
